@@ -6,7 +6,7 @@
 (* explicitly preconditioned system (BiCGStab, van der Vorst 1992).                  *)
 (* Vectors are sequences of rationals <<num, den>> (Rat.tla), matrices sequences of  *)
 (* rows.  P is the preconditioner as a matrix (M^-1), side is "left" or "right".     *)
-EXTENDS Rat, FiniteSets
+EXTENDS Rat, FiniteSets, TLC
 
 \* ------------------------------------------------------------ arithmetic in Q
 \* Rat.tla multiplies before it reduces; TLC integers are 32 bit and an overflow is an
@@ -161,14 +161,23 @@ BiStep(B, g, st) ==
                                         ELSE [u |-> VAdd(VAxpy(alpha, p, st.u), VScale(omega, s)),
                                               r |-> r, p |-> p, v |-> v, rho |-> rho1, alpha |-> alpha,
                                               omega |-> omega, def |-> TRUE, done |-> IsZeroVec(r)]
-RECURSIVE BiRun(_, _, _)
-BiRun(B, g, k) == IF k = 0 THEN BiInit(B, g) ELSE BiStep(B, g, BiRun(B, g, k - 1))
+\* The numbers of this recurrence grow like the 5th power per step: with 32-bit TLC integers a
+\* further step is taken only from a state whose numerators / denominators are all <= bound;
+\* otherwise the run is marked `big` (not judged).
+BiSize(st) == LET S == {VSize(st.u), VSize(st.r), VSize(st.p), VSize(st.v), VSize(<<st.rho, st.alpha, st.omega>>)}
+              IN  CHOOSE m \in S : \A y \in S : y <= m
+RECURSIVE BiRun(_, _, _, _)
+BiRun(B, g, k, bound) ==
+    IF k = 0 THEN [big |-> FALSE] @@ BiInit(B, g)
+    ELSE LET prev == BiRun(B, g, k - 1, bound)
+         IN  IF prev.big \/ (k >= 2 /\ prev.def /\ ~prev.done /\ BiSize(prev) > bound) THEN [prev EXCEPT !.big = TRUE]
+             ELSE [big |-> FALSE] @@ BiStep(B, g, prev)
 \* preconditioned: left = the algorithm on (P A) x = P f, right = on (A P) u = f with x = P u,
 \* both for the correction from x0
-BiCGStabRef(A, P, f, x0, k, side) ==
+BiCGStabRef(A, P, f, x0, k, side, bound) ==
     LET r0 == Residual(A, f, x0)
-        st == IF side = "left" THEN BiRun(MatMul(P, A), MatVec(P, r0), k) ELSE BiRun(MatMul(A, P), r0, k)
-    IN  [x |-> VAdd(x0, IF side = "left" THEN st.u ELSE MatVec(P, st.u)), def |-> st.def, done |-> st.done]
+        st == IF side = "left" THEN BiRun(MatMul(P, A), MatVec(P, r0), k, bound) ELSE BiRun(MatMul(A, P), r0, k, bound)
+    IN  [x |-> VAdd(x0, IF side = "left" THEN st.u ELSE MatVec(P, st.u)), def |-> st.def, done |-> st.done, big |-> st.big]
 
 \* ------------------------------------------------------- enumerated small systems
 \* all n x n integer matrices with entries in -a..a, as sequences of rows
